@@ -163,6 +163,7 @@ def job_whole(stack, nondim):
     def allocate_mem(n, name=''):
         n = int(Q.of(n).const()) if not isinstance(n, int) else n
         a = CArr((n,), str(name).split(' ')[0])
+        a.src_declared = True            # the size is the source's own allocation expression
         rec['alloc'].append(a)
         return a
 
